@@ -382,7 +382,10 @@ class SocksRun(object):
             self.reply_value = ('ip', str(ipaddress.IPv6Address(addr)))
             sim.probe('atyp-ipv6')
         elif atyp == 3:
-            name = ch.pick([b'host.example', b'a', b'x' * 40, b'ab'], 'bname')
+            name = [b'host.example', b'a', b'x' * 40, b'ab', b'y' * 253, b'z' * 254, b'w' * 255][
+                ch.weighted([8, 6, 4, 6, 1, 1, 1], 'bname')]
+            if len(name) >= 254:
+                sim.probe('reply-domain-length-254..255')
             body = bytes([len(name)]) + name
             self.reply_value = ('name', name.decode('ascii'))
             sim.probe('atyp-domain')
@@ -516,7 +519,18 @@ class SocksRun(object):
         ep = TCP4ClientEndpoint(sim.reactor, '127.0.0.1', 9050)
         self.factory = AppFactory(self)
         try:
-            if self.req_type == 'CONNECT':
+            web = (self.prop == 'C06' and self.req_type == 'CONNECT' and not self.unencodable and self.port > 0 and
+                   self.target_kind in ('host', 'ipv4') and all(c.isalnum() or c in '.-' for c in self.host) and
+                   ch.chance(1, 5, 'webagent'))
+            if web:
+                # the same CONNECT reached through the web agent (txtorcon.web.tor_agent): a URL with an explicit port
+                import txtorcon.web as tweb
+                sim.probe('api-web-agent')
+                url = ('http://%s:%d/index.html' % (self.host, self.port)).encode('ascii')
+                sim.log('target', 'web-agent', url.decode('ascii')[:80])
+                agent = tweb.tor_agent(sim.reactor, ep)
+                d = defer.maybeDeferred(lambda: agent).addCallback(lambda a: a.request(b'GET', url))
+            elif self.req_type == 'CONNECT':
                 d = tsocks.TorSocksEndpoint(ep, self.host, self.port).connect(self.factory)
             elif self.req_type == 'RESOLVE':
                 sim.probe('resolve')
